@@ -52,6 +52,17 @@ def io_rules(ctx, chk):
             # W then R, each result examined; any err edge leads to a return of Err without further I/O
             bad = _helper_discipline(b, eg)
             chk.require(not bad, "C06/helper", "write_packet_with_ack", "; ".join(bad), "write, check, read Ack, check", b.sp())
+        if r.get("root") == "zvt::io::PacketTransport::<S>::read_packet_with_ack" and r["defkind"] == "Closure":
+            # the mirror helper (read, then acknowledge): read first, Ack written only after a successful read,
+            # both outcomes examined, nothing after a failure
+            import events
+            eg = events.EventGraph(b, zvt.adts)
+            rd = [bb for bb, t in b.calls() if callee(t) == "zvt::io::PacketTransport::<S>::read_packet"]
+            wr = [(bb, t) for bb, t in b.calls() if callee(t) == "zvt::io::PacketTransport::<S>::write_packet"]
+            shape = len(rd) == 1 and len(wr) == 1 and ty_str(wr[0][1]["f"]["a"][-1]) == "zvt::packets::Ack" and \
+                b.dominates(rd[0], wr[0][0])
+            bad = _helper_discipline(b, eg) if shape else ["expected exactly read_packet then write_packet(Ack)"]
+            chk.require(not bad, "C06/helper", "read_packet_with_ack", "; ".join(bad), "read, check, write Ack, check", b.sp())
         if r.get("root") == "zvt::io::PacketTransport::<S>::read_packet" and r["defkind"] == "Closure":
             parses = [(bb, t) for bb, t in b.calls() if callee(t) == "zvt_builder::ZvtParser::zvt_parse"]
             chk.require(len(parses) == 1, "C06/parse-once", "read_packet", "expected one zvt_parse call, found %d" % len(parses),
